@@ -60,7 +60,7 @@ EXPERT = (
     + enum_range(1, '$1->Equil', ['NO', 'YES'])
     + square(2, ['SLU_NC', 'SLU_NR'], 'SLU_GE')
     + [(6, ['($1->Fact == FACTORED)', '!local{6}', '(strncmp($6, "N", 1) != 0)']),
-       (7, ['(local{7} <= 0.0)']), (8, ['(local{8} <= 0.0)']),
+       (7, ['(min{7} <= 0.0)']), (8, ['(min{8} <= 0.0)']),
        (12, ['($12 < -1)'])]
     + dense(13, 2) + dense(14, 2)
     + [(14, ['($13->ncol != 0)', '($13->ncol != $14->ncol)'])]
@@ -122,10 +122,28 @@ class Namer(object):
                     for vid, s in local.items():
                         der[vid] = s
                     break
+        # fold kind of the locals assigned in that block: running minimum / maximum of an argument array
+        self.fold = {}
+        if best:
+            for blk in reversed(best):
+                kinds = {}
+                for n in blk.walk():
+                    if n.k == 'Assign' and n.a['op'] == '=' and strip(n.c[0]).k == 'Ref':
+                        t = r2.norm(n.c[1])
+                        kinds.setdefault(strip(n.c[0]).a['id'], set()).add('min' if t.startswith('min(') else ('max' if t.startswith('max(') else 'other'))
+                for vid, ks in kinds.items():
+                    ks = ks - {'other'} if len(ks) > 1 else ks      # the initialisation (rcmin = bignum) does not count
+                    if ks == {'min'}:
+                        self.fold[vid] = 'min'
+                    elif ks == {'max'}:
+                        self.fold[vid] = 'max'
+                if kinds:
+                    break
         return der
 
     def text(self, e, der):
         pos = self.pos
+        fold = getattr(self, 'fold', {})
 
         def ren(n):
             n = strip(n)
@@ -135,7 +153,7 @@ class Namer(object):
                     return N('Ref', n.t, [], dict(n.a, name='$%d' % pos[vid]), n.line, n.mac)
                 if n.a.get('dk') == 'VarDecl':
                     s = sorted(der.get(vid, ()))
-                    return N('Ref', n.t, [], dict(n.a, name='local{%s}' % ','.join(map(str, s))), n.line, n.mac)
+                    return N('Ref', n.t, [], dict(n.a, name='%s{%s}' % (fold.get(vid, 'local'), ','.join(map(str, s)))), n.line, n.mac)
                 return n
             if not n.c:
                 return n
